@@ -303,6 +303,14 @@ fn main() {
     for &s in scales.iter() {
         r2.push(Dec::new(0, s));
     }
+    // unscaled integers spelling machine-word limits, as integers and as pure fractions
+    for d in limit_spellings() {
+        let n = big(&d);
+        for s in [0i128, d.len() as i128, d.len() as i128 + 3, 1, -2] {
+            r2.push(Dec { n: n.clone(), s });
+            r2.push(Dec { n: -n.clone(), s });
+        }
+    }
     run.bound("R2_scales", json!(scales.iter().map(|s| *s as i64).collect::<Vec<_>>()));
     run.par("R2 long operands, scales around the limit, zeros with scales", r2.len(), |i| {
         let mut t = Tally::default();
@@ -389,6 +397,11 @@ fn main() {
                 }
             }
         }
+    }
+    for d in limit_spellings() {
+        docs.push(format!("0.{}", d));
+        docs.push(format!("-{}.{}", d, d));
+        docs.push(format!("{}e-{}", d, d.len()));
     }
     docs.sort();
     docs.dedup();
